@@ -6,6 +6,7 @@ from scen import C, e, n, op, scn, src, sub
 
 PID = "C06"
 ORACLE = "c06"
+MODEL_MUST_NOT = "closure=0"    # at quiescence of the MODEL: ended controllers have empty maps and closed upstream observers (ties Tear.v to Step.v)
 RULE = ("instrumented cold sources (a probe of is_subscribed before every emission attempt; scripts longer than what the consumer "
         "takes, not polling) and hot subjects (observer counts) under every terminating cause of the statement - unsubscribe (driver, "
         "self from callback i), terminal, take/first/element_at/take_while/take_until/contains/all/sequence_equal/amb/retry/erroring "
